@@ -155,7 +155,8 @@ def analysis(case, work, models_in=None, proteins=None):
         model = PercolatorModel(train_fdr=0.2, max_iter=2, rng=seed)
     else:
         model = make_model("linear", first_only=True, train_fdr=0.2, max_iter=2, rng=seed)
-    psms, models, scores, descs = mokapot.brew([ds], model=model, test_fdr=0.2, folds=case["folds"], max_workers=case["workers"], rng=seed)
+    psms, models, scores, descs = mokapot.brew([ds], model=model, test_fdr=0.2, folds=case["folds"], max_workers=case["workers"], rng=seed,
+                                               **({"subset_max_train": case["cap"]} if case.get("cap") else {}))
     dig = {"scores": hashlib.sha1(np.ascontiguousarray(np.asarray(scores[0], dtype=float)).tobytes()).hexdigest(),
            "descs": [bool(d) for d in descs], "trained": [bool(m.is_trained) for m in models]}
     if case["est"] == "perc":
@@ -201,7 +202,8 @@ def safe_analysis(case, work, models_in=None, proteins=None):
     except Exception as e:
         if classify_exception(e)[0] != "explicit_error":
             raise
-        return {"explicit_error": exc_signature(e), "trained": [False], "scores": "", "_models": [], "_scores": np.zeros(0)}
+        # type and message only: with several workers joblib re-raises from another frame
+        return {"explicit_error": f"{type(e).__name__}: {str(e)[:200]}", "trained": [False], "scores": "", "_models": [], "_scores": np.zeros(0)}
 
 
 def public(d):
@@ -325,6 +327,9 @@ def run(ctx):
         hs = tuple(range(8))
     for s, f, w, e, fa in grid:
         cases.append(dict(seed=s, folds=f, workers=w, est=e, fasta=fa, _hashseeds=list(hs)))
+    # training on a random subset of every training split (the draw must come from the seeded generator)
+    for s, f, e in (((2, 3, "rec"),) if ctx.quick else ((1, 3, "rec"), (2, 2, "rec"), (42, 4, "perc"))):
+        cases.append(dict(seed=s, folds=f, workers=1, est=e, fasta="none", cap=60, _hashseeds=list(hs)))
     # spectrum key led by a string column (file name)
     for s, f, e in (((1, 3, "perc"),) if ctx.quick else ((1, 3, "perc"), (2, 4, "perc"), (42, 4, "rec"))):
         cases.append(dict(seed=s, folds=f, workers=1, est=e, fasta="none", key="file", _hashseeds=list(hs)))
